@@ -52,7 +52,7 @@ CLAIMS = {
         "histories of stop/pause/resume/deploy/rollout with hostile messages, built-in and custom 503 pages, body text compared byte for byte.",
    note=TB + "Modelled: html/template text-context escaper. The concurrent clause (requests arriving at any time) is carried by the proxy engine (C07)."),
 
-'C14': dict(engine='buffer', technique='Lean 4 proof (invariants by induction over write sequences; middleware over handler event traces) + differential correspondence run incl. an exhaustive small scope',
+'C14': dict(engine='buffer+control', technique='Lean 4 proof (invariants by induction over write sequences; middleware over handler event traces) + differential correspondence run incl. an exhaustive small scope',
    text="Theorems (all sizes, chunkings, limits): a body within the limit is accepted and delivered byte-exact for every chunking; memory "
         "never holds more than buffer-memory bytes, a spill exists iff more was accepted and memory is then exactly full; overflow iff a "
         "write would pass max-bytes (exactly max-bytes accepted, one more rejected); request middleware: over the limit => 413 and the next "
@@ -70,7 +70,7 @@ CLAIMS = {
         "snapshot while another runs.",
    note=TB + "The OS is modelled (atomic rename, kill between syscalls). T1 facts: saveStateSnapshot's step skeleton (lock, CreateTemp in the same directory, Rename)."),
 
-'C01': dict(engine='proxy', technique='Lean 4 proof (whole-schedule invariant of the concurrent timed model by induction over arbitrary schedules + step theorems) + differential correspondence run under a deterministic scheduler (synctest, hook parking)',
+'C01': dict(engine='proxy+control', technique='Lean 4 proof (whole-schedule invariant of the concurrent timed model by induction over arbitrary schedules + step theorems) + differential correspondence run under a deterministic scheduler (synctest, hook parking)',
    text="Theorems, for EVERY schedule of the concurrent model (any commands, requests, probe scripts, hook releases, clock advances, any "
         "interleaving; proved by induction over schedules, Proofs/ProxyInv.lean): every load balancer a service object refers to exists and "
         "every one of its targets has raised its became-healthy signal (C01_global_slots); every request that picked a load balancer picked "
@@ -99,20 +99,20 @@ CLAIMS = {
         "running; a repeated pause does not release waiters. The clauses 'forwarded to the targets the service has at that moment' and "
         "'pause never causes a refusal' are FALSE of the code (F2c, F2d: kernel-checked witnesses replayed every run).",
    note=TB + "M4 is an interpreter of schedules; its atomic steps follow the code incl. its known defects. Partial: the theorems are about the model's step functions (local), whole-schedule invariants are carried by kernel-checked witnesses/tests and the correspondence run; probe I/O kinds are abstracted."),
- 'C09': dict(engine='proxy', technique='Lean 4 proof (rotation arithmetic, refresh, probe transitions + kernel-checked counter-example) + differential correspondence run under a deterministic scheduler',
+ 'C09': dict(engine='proxy+control', technique='Lean 4 proof (rotation arithmetic, refresh, probe transitions + kernel-checked counter-example) + differential correspondence run under a deterministic scheduler',
    text="Proved: k consecutive claims visit every rotation position exactly once (strict fairness); a claim returns the next rotation member; "
         "refresh makes the rotation exactly the healthy targets in order; empty rotation claims nothing (503); probe transitions "
         "(fail: healthy->unhealthy, success: anything->healthy). 'A target whose latest probe failed receives no new requests' is FALSE "
         "when the failed probe falls into a drain (F19: kernel-checked witness replayed every run).",
    note=TB + "M4 is an interpreter of schedules; its atomic steps follow the code incl. its known defects. Partial: the theorems are about the model's step functions (local), whole-schedule invariants are carried by kernel-checked witnesses/tests and the correspondence run; probe I/O kinds are abstracted."),
- 'C17': dict(engine='proxy', technique='Lean 4 proof (deadline enabledness at step level + kernel-evaluated schedules) + differential correspondence run on the virtual clock',
+ 'C17': dict(engine='proxy+control+soak', technique='Lean 4 proof (deadline enabledness at step level + kernel-evaluated schedules) + differential correspondence run on the virtual clock',
    text="Proved: at the deploy deadline the waiting step is enabled whatever targets do, and it is enabled as soon as all have signalled; each "
         "drain has deadline start+drain-timeout and is enabled at it or as soon as its snapshot finished; a stopped probe loop never fires. "
         "Tied by comparing the virtual return time of every command and every probe sent on random schedules. F16 (orphaned load balancer "
         "probed forever) is a recorded finding.",
    note=TB + "M4 is an interpreter of schedules; its atomic steps follow the code incl. its known defects. Partial: the theorems are about the model's step functions (local), whole-schedule invariants are carried by kernel-checked witnesses/tests and the correspondence run; probe I/O kinds are abstracted." + " Real elapsed time is outside the model."),
 
-'C13': dict(engine='rewrite+buffer', technique='Lean 4 proof (round-trip of the URL model: parse, join, strip, re-escape) + differential correspondence run through the real ReverseProxy/Transport',
+'C13': dict(engine='rewrite+buffer+faults', technique='Lean 4 proof (round-trip of the URL model: parse, join, strip, re-escape) + differential correspondence run through the real ReverseProxy/Transport',
    text="Theorems: for every raw path that is a valid encoding and every query, the request-URI forwarded without stripping is the client's, "
         "byte for byte (C13_path_nostrip); with stripping, if the client spelled the prefix literally, what follows the prefix is forwarded "
         "byte for byte, or '/' (C13_path_strip, needs the F7 repair); the raw query and the presence of '?' are copied verbatim; with header "
